@@ -38,6 +38,11 @@ pub enum Use { None, Pedersen, Bitwise, Poseidon, WideImmediate }
 
 /// The Sierra text of the generated contract (one function, index 0).
 pub fn contract_sierra(sig: &[&str], unpaid: Use) -> String {
+    contract_sierra_returning(sig, &(0..sig.len()).collect::<Vec<_>>(), unpaid)
+}
+/// Same, with the builtins RETURNED in the order `ret_order` (indices into `sig`): a function whose
+/// builtin parameters and builtin return values are in different orders.
+pub fn contract_sierra_returning(sig: &[&str], ret_order: &[usize], unpaid: Use) -> String {
     let mut s = String::new();
     s.push_str("type felt252 = felt252;\ntype u128 = u128;\ntype Arr = Array<felt252>;\ntype Snap = Snapshot<Arr>;\n");
     s.push_str("type Span = Struct<ut@core::array::Span::<core::felt252>, Snap>;\ntype TupleSpan = Struct<ut@Tuple, Span>;\n");
@@ -96,9 +101,9 @@ pub fn contract_sierra(sig: &[&str], unpaid: Use) -> String {
     }
     let tail = |s: &mut String, cur: &Vec<usize>, a: usize, r: usize| {
         writeln!(s, "mk_tuple([{k}]) -> ([{a}]);\nmk_ok([{a}]) -> ([{r}]);").unwrap();
-        for (i, b) in sig.iter().enumerate() { writeln!(s, "st_{b}([{}]) -> ([{}]);", cur[i], cur[i]).unwrap(); }
+        for &i in ret_order { writeln!(s, "st_{}([{}]) -> ([{}]);", sig[i], cur[i], cur[i]).unwrap(); }
         writeln!(s, "st_res([{r}]) -> ([{r}]);").unwrap();
-        let rets: Vec<String> = cur.iter().map(|v| format!("[{v}]")).chain([format!("[{r}]")]).collect();
+        let rets: Vec<String> = ret_order.iter().map(|&i| format!("[{}]", cur[i])).chain([format!("[{r}]")]).collect();
         writeln!(s, "return({});", rets.join(", ")).unwrap();
     };
     if wide {
@@ -119,7 +124,7 @@ pub fn contract_sierra(sig: &[&str], unpaid: Use) -> String {
         tail(&mut s, &cur, a, r);
     }
     let params: Vec<String> = sig.iter().enumerate().map(|(i, b)| format!("[{i}]: {b}")).chain([format!("[{k}]: Span")]).collect();
-    let ret_tys: Vec<String> = sig.iter().map(|b| b.to_string()).chain(["PanicResult".to_string()]).collect();
+    let ret_tys: Vec<String> = ret_order.iter().map(|&i| sig[i].to_string()).chain(["PanicResult".to_string()]).collect();
     writeln!(s, "gen::gen::__wrapper__f@0({}) -> ({});", params.join(", "), ret_tys.join(", ")).unwrap();
     s
 }
@@ -299,6 +304,30 @@ fn __verif_n_class_gen_signatures() {
                     if is_protocol_shaped(sig) && (unpaid == Use::None || unpaid == Use::WideImmediate) { fails.entry(("C19", "complete".into())).or_insert((input, format!("a protocol-shaped entry point that pays for everything it uses was rejected: {e}"))); }
                 }
             }
+        }
+    }
+    // builtin parameters in one order, builtin return values in another: the parameters of every
+    // permuted signature, the return values in protocol order ("its builtin list is exactly the
+    // function's builtin PARAMETERS in protocol order")
+    let rank = |b: &str| PROTOCOL.iter().position(|(g, _)| *g == b).unwrap_or(if b == "GasBuiltin" { 100 } else { 101 });
+    for sig in &sigs {
+        if is_protocol_shaped(sig) { continue; }
+        let mut ret_order: Vec<usize> = (0..sig.len()).collect();
+        ret_order.sort_by_key(|&i| rank(sig[i]));
+        let sorted: Vec<&str> = ret_order.iter().map(|&i| sig[i]).collect();
+        if !is_protocol_shaped(&sorted) { continue; }
+        let text = contract_sierra_returning(sig, &ret_order, Use::None);
+        let Some(program) = parse_canonical(&text) else {
+            fails.entry(("C19", "harness".into())).or_insert((format!("{sig:?} returning {sorted:?}"), format!("generated Sierra does not parse (harness): {}", text.replace('\n', " | "))));
+            continue;
+        };
+        cases += 1;
+        let input = format!("generated contract: entry point parameters {sig:?} + calldata, builtins returned in the order {sorted:?}");
+        match judge(&program, single_external()) {
+            Outcome::Panic(m) => { fails.entry(("C14", m.chars().take(60).collect())).or_insert((input, format!("from_contract_class panicked: {m}"))); }
+            Outcome::Defect(p, w) => { fails.entry((p, w.chars().take(50).collect())).or_insert((input, w)); }
+            Outcome::Accepted => { accepted += 1; fails.entry(("C19", "shape".into())).or_insert((input, "accepted although the parameters are not [builtins in protocol order.., GasBuiltin, System, calldata]".into())); }
+            Outcome::Rejected(_) => rejected += 1,
         }
     }
     // the smallest contracts: no entry point at all (a storage-only contract: an empty program), and
